@@ -1915,22 +1915,43 @@ func runR205(c *core.Ctx) {
 	cf, fd := mustDecl(c, rel, "CleanTargetDir")
 	comp := cleanerComponent(c, rel, cf)
 	var reassigned []string
+	nParams := 0
 	for _, cfd := range comp {
-		if cfd.Type.Params == nil || len(cfd.Type.Params.List) != 1 || len(cfd.Type.Params.List[0].Names) != 1 {
-			c.Unknown(rel, core.DeclName(cfd), "directory parameter", cfd.Pos(), "unexpected signature")
-			return
+		// the string parameters (and those of the function literals inside): directory paths
+		params := map[types.Object]bool{}
+		collect := func(ft *ast.FuncType) {
+			if ft.Params == nil {
+				return
+			}
+			for _, fl := range ft.Params.List {
+				for _, nm := range fl.Names {
+					if o := inf.Defs[nm]; o != nil {
+						if b, ok := o.Type().Underlying().(*types.Basic); ok && b.Info()&types.IsString != 0 {
+							params[o] = true
+						}
+					}
+				}
+			}
 		}
-		param := inf.Defs[cfd.Type.Params.List[0].Names[0]]
+		collect(cfd.Type)
+		for _, fl := range core.FuncLitsIn(cfd.Body) {
+			collect(fl.Type)
+		}
+		nParams += len(params)
 		ast.Inspect(cfd.Body, func(n ast.Node) bool {
 			if as, ok := n.(*ast.AssignStmt); ok {
 				for _, l := range as.Lhs {
-					if id, ok := core.Unparen(l).(*ast.Ident); ok && inf.Uses[id] == param {
+					if id, ok := core.Unparen(l).(*ast.Ident); ok && params[inf.Uses[id]] {
 						reassigned = append(reassigned, c.M.Position(as.Pos()))
 					}
 				}
 			}
 			return true
 		})
+	}
+	if nParams == 0 {
+		c.Unknown(rel, "CleanTargetDir", "directory parameter", fd.Pos(), "the cleaner has no string parameter")
+		return
 	}
 	c.Check(len(reassigned) == 0, rel, "CleanTargetDir", "the directory parameter reaches the \".\" guards as given", fd.Pos(), "",
 		"the parameter is reassigned at "+strings.Join(reassigned, ", ")+": after normalisation the comparison with \".\" never holds and an emptied current directory is removed")
@@ -1945,7 +1966,7 @@ func runR205(c *core.Ctx) {
 			}
 			if j, ok := core.Unparen(call.Args[0]).(*ast.CallExpr); ok && core.IsFunc(core.Callee(inf, j), "path/filepath", "Join") {
 				for _, a := range j.Args {
-					if core.ObjOf(inf, a) == manifest && manifest != nil {
+					if constObj(c, inf, a) == manifest && manifest != nil {
 						found = true
 					}
 				}
